@@ -44,7 +44,7 @@ def one(mdir):
         res["demo_patched_rc"] = rc1
         res["demo_patched_tail"] = o1[-400:]
         t = time.time()
-        rcb, ob = sh(f"QIBO_REPO={wt} /venv/bin/python /verif/tools/baseline.py /tmp/mutc/{prop}_{name}.xml")
+        rcb, ob = sh(f"QIBO_REPO={wt} BASELINE_IGNORE=/verif/tools/worktree_env_failures.json /venv/bin/python /verif/tools/baseline.py /tmp/mutc/{prop}_{name}.xml")
         res["suite"] = ob.strip().split("\n")[0]
         res["suite_ok"] = rcb == 0
         verdicts = {}
